@@ -629,6 +629,27 @@ async def run_program(spec: dict, rec: Rec, *, runtime=None, retry_builder=None,
     rec.horizon = H
     if ctx_factory is not None:
         handler = wf.run(ctx=ctx_factory(wf))
+    elif spec.get("prior_run"):
+        # an earlier, unrelated run on the same runtime ended under the very run id this run asks for; its handler is still referenced
+        # and nobody read its stream.  The new submission is either refused (then it is made under a fresh id) or is a run of its own.
+        m_ = M()
+
+        wev_ = m_["wev"]
+
+        async def only(self, ev):
+            return wev_.StopEvent(result="prior")
+
+        only.__qualname__ = "PriorWf.only"
+        only.__annotations__ = {"ev": wev_.StartEvent, "return": wev_.StopEvent}
+        prior_cls = type("PriorWf", (m_["Workflow"],), {"only": m_["step"](only)})
+        rec.prior_handler = prior_cls(timeout=None, runtime=runtime).run(run_id="run-0")
+        await asyncio.wait({rec.prior_handler._result_task}, timeout=5.0)
+        try:
+            handler = wf.run(start_event=rec.mk("GStart", "start"), run_id="run-0")
+            rec.notes.append({"prior_run_id": "reused"})
+        except Exception as e:  # noqa: BLE001
+            rec.notes.append({"prior_run_id": "refused", "error": repr(e)[:120]})
+            handler = wf.run(start_event=rec.mk("GStart", "start"), run_id="run-0b")
     else:
         handler = wf.run(start_event=rec.mk("GStart", "start"), run_id="run-0")
     rec.handler = handler
